@@ -61,6 +61,12 @@ check("C15",
  "deterministic simulation: simulated file tree + working directory with crash-point I/O fault injection, seeded world/history search, reference model (textual substitution), minimised replay files",
  "DESIGN.md 4.3")
 
+check("C09",
+ "Seeded search over call histories on one long-lived Validator (plus module-level validate/create in the same process): every run first walks its slice of the finite alphabet - each of the 106 annotated schema entries x every parent chain from every root type x versions just below / at / just above each bound and no version - then a random history over versions 4.0-8.4 biased to revisit an entry at another version, 30% with schema-read faults placed at the k-th open/read (inside lazy $ref loading during in-place pruning). After every operation the verdict is compared with an immutable reference model (raw schemas filtered at every depth, jsonschema + Registry), with a fresh Validator, and exported schemas are walked for excluded entries and compared with a fresh export; version-less results must be unchanged. A quick batch covers the whole alphabet several times; the history x fault dimension is sampled.",
+ "Trusts the reference model (sim/c09model.py, ~250 lines, agrees with the code on all 635 alphabet documents x boundary versions after the fix: commit) and value synthesis that keeps every keyword value schema-valid. Message wording and error order are not compared.",
+ "deterministic simulation: seeded call/version histories with schema-read fault injection on a long-lived cache-holding object, refinement against an immutable reference model, minimised replay files",
+ "DESIGN.md 4.2")
+
 def main():
     order = ["C03", "C09", "C12", "C15", "C17", "C18", "C20"]
     claimed = [CHECKS[p] for p in order if p in CHECKS]
